@@ -27,7 +27,8 @@ RULE = ('cases = (tier, backend, message bytes b from raw binary / line '
         'Non-trivial = b has no header/body separator, or no final newline, '
         'or a bare CR or LF, NUL, 8-bit bytes, a whitespace-only last line, '
         'or nested MIME; distinct by SHA-1 of b (+tier/backend).')
-ASSUMPTIONS = ['b is sent as a non-synchronising literal; zero-length b is '
+ASSUMPTIONS = ['b is sent as a literal in one of the four spellings {n+} {n} '
+               '~{n+} ~{n}; zero-length b is '
                'not generated (APPEND treats it as cancellation, RFC 3502)',
                'sizes above a few KiB are built by tiling generated blocks']
 BUDGET = {'quick': (400, 16), 'thorough': (12000, 16)}
@@ -47,11 +48,15 @@ def strategy(tier: str) -> Any:
     # of equal length and equal Adler-32 (the dict backend keys its content
     # cache on zlib.adler32: b+'abba' and b+'baab' collide for every b),
     # 'other' = an unrelated message.
+    # 'form': how the literal is announced (non-synchronising, synchronising,
+    # and the two literal8 spellings of RFC 3516)
     wire = st.tuples(msg, st.sampled_from(['dict', 'dict', 'maildir']),
                      rng, st.sampled_from(['none', 'none', 'dup', 'adler',
-                                           'adler', 'other'])).map(
+                                           'adler', 'other']),
+                     st.sampled_from(['{n+}', '{n+}', '{n}', '~{n+}',
+                                      '~{n}'])).map(
         lambda t: {'tier': 'wire', 'msg': t[0], 'backend': t[1],
-                   'range': list(t[2]), 'pair': t[3]})
+                   'range': list(t[2]), 'pair': t[3], 'form': t[4]})
     return st.one_of(mime, mime, wire)
 
 
@@ -254,7 +259,18 @@ def _check_wire(case: dict[str, Any], out: CaseOut) -> None:
             if b'a1 OK' not in got:
                 out.label('append-refused')
                 return
-        got = conn.cmd(b'a2 APPEND INBOX {%d+}\r\n' % len(b) + b + b'\r\n')
+        form = case.get('form', '{n+}')
+        out.label('literal:' + form)
+        head = b'a2 APPEND INBOX ' + form.replace(
+            'n', str(len(b))).encode() + b'\r\n'
+        if form.endswith('+}'):
+            got = conn.cmd(head + b + b'\r\n')
+        else:
+            got = conn.cmd(head)
+            if not got.startswith(b'+ '):
+                out.label('append-refused')
+                return
+            got = conn.cmd(b + b'\r\n')
         if b'a2 OK' not in got:
             out.label('append-refused')
             return
